@@ -46,6 +46,7 @@ struct SchedResult {
   int contended_locks = 0;       // times a task found the mutex held
   int cond_waits = 0, cond_timeouts = 0;  // condition-variable waits entered / timed waits that were let expire
   int switches = 0;              // steps where the chosen task differs from the previous one
+  int tls_blocks = 0;            // per-task instances of thread_local objects created (emulated TLS)
 };
 
 // Run the given task bodies to completion under the configured chooser.
